@@ -112,6 +112,16 @@ def _apply_seq_ops(s, ops):
             s = s.to_dna()
         elif k == "degap":
             s = s.degap()
+        elif k == "rename":
+            s.name = op[1]
+        elif k == "deepcopy":
+            import copy as _copy
+
+            s = _copy.deepcopy(s)
+        elif k == "to_moltype":
+            s = s.to_moltype(op[1])
+        elif k == "info":
+            s.info[op[1]] = op[2]
         else:
             raise ValueError(k)
     return s
@@ -180,6 +190,19 @@ def _apply_coll_ops(c, ops):
             c = c.to_type(array_align=op[1])
         elif k == "info":
             c.info[op[1]] = op[2]
+        elif k == "deepcopy":
+            import copy as _copy
+
+            c = _copy.deepcopy(c)
+        elif k == "to_moltype":
+            c = c.to_moltype(op[1])
+        elif k == "rename_to":
+            c = c.rename_seqs(lambda x, m=op[1]: m.get(x, x))
+        elif k == "seqname":
+            # rename ONE sequence object in place (seq.name = ...), the collection keeps its own name for it
+            sq = c.named_seqs[op[1]]
+            sq = sq.data if hasattr(sq, "data") else sq
+            sq.name = op[2]
         else:
             raise ValueError(k)
     return c
@@ -255,6 +278,20 @@ def _build_tree(rec, scratch):
             t.name_unnamed_nodes()
         elif k == "special_name":
             pass  # marker only: the previous rename used a newick meta character
+        elif k == "root_len":
+            t.length = op[1]
+        elif k == "root_param":
+            t.params[op[1]] = op[2]
+        elif k == "int_param":
+            cands = [e for e in t.get_edge_vector(include_root=False) if e.children]
+            if cands:
+                cands[op[1] % len(cands)].params[op[2]] = op[3]
+        elif k == "int_len":
+            cands = [e for e in t.get_edge_vector(include_root=False) if e.children]
+            if cands:
+                cands[op[1] % len(cands)].length = op[2]
+        elif k == "scale_bl":
+            t.scale_branch_lengths(max_length=op[1], ultrametric=False)
         else:
             raise ValueError(k)
     return t
@@ -604,6 +641,14 @@ def gen_seq(rng, impl=None):
             ops.append(["feat", _j(_feat(rng, cur))])
         elif r < 0.32 and not (impl == "new" and offset):
             ops.append(["copy", rng.random() < 0.7])
+        elif r < 0.38:
+            ops.append(["rename", rng.choice(["renamed", "new id", "s1"])])
+        elif r < 0.42:
+            ops.append(["deepcopy"])
+        elif r < 0.46 and mt in ("dna", "rna") and not any(o[0] == "to_moltype" for o in ops):
+            ops.append(["to_moltype", "rna" if mt == "dna" else "dna"])
+        elif r < 0.49:
+            ops.append(["info", "added", rng.randint(0, 9)])
         else:
             op = rslice(rng, cur, allow_neg=mt in ("dna", "rna", "text", "protein"))
             ops.append(op)
@@ -680,6 +725,16 @@ def gen_coll(rng, kind=None, small=False):
             ops.append(["rename"])
         elif r < 0.5:
             ops.append(["info", "k", rng.randint(0, 9)])
+        elif r < 0.54:
+            ops.append(["deepcopy"])
+        elif r < 0.58 and mt in ("dna", "rna") and not any(o[0] == "to_moltype" for o in ops):
+            ops.append(["to_moltype", "rna" if mt == "dna" else "dna"])
+        elif r < 0.62 and not any(o[0] in ("take", "rename", "seqname") for o in ops):
+            ops.append(["seqname", rng.choice(list(seqs)), "renamed_obj"])
+        elif r < 0.68 and aligned and cur > 1:
+            pos = sorted(rng.sample(range(cur), rng.randint(1, cur - 1)))
+            ops.append(["take_pos", pos])
+            cur = len(pos)
         elif aligned and cur > 0:
             if kind == "ArrayAlignment":
                 op = rslice(rng, cur, allow_neg=False, allow_step=rng.random() < 0.4)
@@ -692,18 +747,29 @@ def gen_coll(rng, kind=None, small=False):
             cur = len(range(cur)[slice(op[1], op[2], op[3])])
         elif not aligned and r < 0.7:
             ops.append(["degap"])
+    if kind == "Alignment" and mt in ("dna", "rna") and n >= 6 and rng.random() < 0.2:
+        # annotated (feature on a NON-first row) -> sliced -> reverse complemented
+        sid = list(seqs)[-1]
+        ln = len(seqs[sid].replace("-", ""))
+        if ln >= 2:
+            f = _feat(rng, ln, seqid=sid, extra={"on_alignment": False})
+            feats = feats + [_j(f)]
+            a = rng.randint(0, 2)
+            ops = [["s", a, rng.randint(a + 2, n), None], ["rc"]]
+            if "annotated" not in extra:
+                extra.append("annotated")
     return dict(family="coll", kind=kind, moltype=mt, seqs=seqs, offsets=offsets, info=rng.choice([None, {"src": "t"}]), features=feats, ops=ops, hclass=hist_class(ops, extra))
 
 
 def gen_aligned(rng):
     c = gen_coll(rng, kind="Alignment")
-    c["ops"] = [o for o in c["ops"] if o[0] not in ("take", "rename")]
+    c["ops"] = [o for o in c["ops"] if o[0] not in ("take", "rename", "seqname")]
     return dict(family="aligned", aln=c, row=rng.choice(list(c["seqs"])), hclass=hist_class(c["ops"], ["offset"] if c.get("offsets") else []))
 
 
 def gen_collseq(rng):
     c = gen_coll(rng, kind=rng.choice(["Alignment", "SequenceCollection"]))
-    c["ops"] = [o for o in c["ops"] if o[0] not in ("take", "rename")]
+    c["ops"] = [o for o in c["ops"] if o[0] not in ("take", "rename", "seqname")]
     ops = []
     if rng.random() < 0.7:
         ops.append(rslice(rng, 8, allow_neg=c["moltype"] != "protein"))
@@ -738,6 +804,8 @@ def gen_newcoll(rng):
             ops.append(["rename"])
         elif r < 0.9 and mt == "dna":
             ops.append(["to_rna"])
+        elif r < 0.95:
+            ops.append(["deepcopy"])
     return dict(family="newcoll", moltype=mt, seqs=seqs, info=rng.choice([None, {"src": "t"}]), features=feats, ops=ops, hclass=hist_class(ops, extra))
 
 
@@ -781,39 +849,61 @@ def gen_tree(rng, safe=False):
     tipnames = rng.choice([["a", "b", "c", "d", "e", "f", "g"], ["Human", "Chimp", "Mouse", "Rat", "Dog", "Cow", "Pig"], ["t_1", "t-2", "t.3", "t4", "t5", "t6", "t7"]])[:ntip]
     lengths = rng.random() < 0.8
     tips = [f"{t}:{rng.choice([0.1, 0.5, 1.0, 2.0, 0.333, 7])}" if lengths else t for t in tipnames]
-    root_name = (not safe) and rng.random() < 0.15
+    root_name = (not safe) and rng.random() < 0.12
     nw = _rand_newick(rng, tips, lengths, internal_names=root_name or rng.random() < 0.5, root_name=root_name)
     named_root = not nw.endswith(");")
+    extra = ["lengths"] if lengths else ["nolengths"]
+    # the ROOT carries a length in the newick itself: '(...):7;'
+    if lengths and rng.random() < 0.3:
+        nw = nw[:-1] + f":{rng.choice([7, 0.5, 1.25])};"
+        extra.append("root_attrs")
     ops = []
     for _ in range(rng.choice([0, 1, 1, 2, 3])):
         r = rng.random()
-        if r < 0.2:
+        if r < 0.12:
             ops.append(["param", rng.choice(tipnames), rng.choice(["kappa", "omega", "support"]), rng.choice([0.5, 2.25, 3, "high", None, [1, 2]])])
-        elif r < 0.35 and ntip > 3:
+        elif r < 0.22:
+            ops.append(["int_param", rng.randint(0, 5), rng.choice(["kappa", "support", "note"]), rng.choice([0.75, 4, "x", [1, 2]])])
+        elif r < 0.27:
+            ops.append(["int_len", rng.randint(0, 5), rng.choice([0.0, 0.625, 4])])
+        elif r < 0.35:
+            ops.append(["root_param", rng.choice(["kappa", "support", "note"]), rng.choice([1.5, 2, "r", [3, 4]])])
+            if "root_attrs" not in extra:
+                extra.append("root_attrs")
+        elif r < 0.41:
+            ops.append(["root_len", rng.choice([0.5, 2.0, 9])])
+            if "root_attrs" not in extra:
+                extra.append("root_attrs")
+        elif r < 0.5 and ntip > 3:
             ops.append(["sub", rng.sample(tipnames, rng.randint(3, ntip))])
-        elif r < 0.45:
+        elif r < 0.57:
             ops.append(["unrooted"])
-        elif r < 0.55 and lengths:
+        elif r < 0.63 and lengths:
             ops.append(["scale", rng.choice([0.5, 3.0])])
-        elif r < 0.65:
+        elif r < 0.67 and lengths:
+            ops.append(["scale_bl", rng.choice([10, 100])])
+        elif r < 0.73:
             ops.append(["set_len", rng.choice(tipnames), rng.choice([0.0, 1.125, 5])])
-        elif r < 0.72:
+        elif r < 0.78:
             newname = rng.choice(["x1", "new name", "x1", "new name", "a:b", "w(1)"]) if not safe else "x1"
             ops.append(["rename", rng.choice(tipnames), newname])
             if newname in ("a:b", "w(1)"):
                 ops.append(["special_name"])
             tipnames = None
             break
-        elif r < 0.8:
+        elif r < 0.83:
             ops.append(["sorted"])
-        elif r < 0.88 and not safe:
+        elif r < 0.87 and not safe:
             ops.append(["bifurcating"])
         elif r < 0.95 and ntip > 2:
             ops.append(["rooted_at", "__internal__"])
+        elif r < 0.975:
+            ops.append(["deepcopy"])
         elif not safe:
             ops.append(["name_unnamed"])
             named_root = True
-    extra = (["lengths"] if lengths else ["nolengths"]) + (["named_root"] if named_root else [])
+    if named_root:
+        extra.append("named_root")
     return dict(family="tree", newick=nw, ops=ops, hclass=hist_class(ops, extra))
 
 
